@@ -462,7 +462,7 @@ fn c_key(k: &Value) -> String {
 
 /// mirror of Printer.xterm_seq (xterm PC-style / VT220-style key encodings)
 fn xterm_seq(k: &Value, mods: u64, alt: bool) -> Option<Vec<u8>> {
-    if mods >= 8 {
+    if mods >= 256 {
         return None;
     }
     let (kind, arg) = (u(&k[0]), u(&k[1]));
@@ -627,6 +627,9 @@ pub fn run(input: &Value) -> Case {
         tags.push(format!("len={}", rs.len().min(8)));
         if !cuts.is_empty() {
             tags.push("chunked".into());
+        }
+        if input["known_class"].is_array() {
+            tags.push("known_class".into());
         }
         Case {
             coq: format!("KSeq {} {} {}", clist(rs.iter().map(c_report)), cbytes(&bytes), clist(events.iter().map(c_tev))),
@@ -854,6 +857,20 @@ pub fn generate(rng: &mut Rng, n: usize, tier: &str) -> Vec<Value> {
             for alt in [false, true] {
                 if xterm_seq(k, mods, alt).is_some() {
                     v.push(json!({"reports": [{"t": "xterm", "k": k, "mods": mods, "alt": alt}, {"t": "char", "c": 121}], "cuts": []}));
+                }
+            }
+        }
+    }
+    // 1c. the same encoding with modifier masks >= 8 (xterm meta, kitty super/hyper/meta/caps/num lock):
+    //     known finding C04-key-mask (the library's table stops at 7); alone, so nothing else hides behind the tag
+    for k in &xkeys {
+        if u(&k[0]) == 5 || u(&k[0]) == 3 {
+            continue;
+        }
+        for mods in [8u64, 9, 15, 16, 32, 64, 128, 129, 255] {
+            for alt in [false, true] {
+                if xterm_seq(k, mods, alt).is_some() && (mods == 8 || mods == 128 || (u(&k[1]) + mods) % 3 == 0) {
+                    v.push(json!({"reports": [{"t": "xterm", "k": k, "mods": mods, "alt": alt}], "cuts": [], "known_class": ["key-mask-ge-8"]}));
                 }
             }
         }
